@@ -141,6 +141,6 @@ CLAIM = dict(
          'The byte-level model (gzip header as compress/gzip writes it, BSIZE back-patch as writeBlock does it, read off the source by gen/) is compared with the real bytes on every run.',
     note='DEFLATE/CRC-32 as Section hypotheses, validated at run time. The back-patch position is extracted from writer.go on every run; the first-occurrence search of the original code is '
          'refuted in Coq (members_wellformed_first_index_refuted) and was repaired in /repo (fix: commit). Header settings that make gzip fail or overflow 64 KiB are outside the quantifier (error paths: C09). '
-         'eof_iff_closed_ok_partial proves only: closed without error => marker present (converse checked at run time only).',
+         'eof_iff_closed_ok is an equivalence under two further compressor facts (codec_laws_eof: streams have >= 2 bytes, the empty payload is not encoded with tail 03 00), validated at run time.',
     technique='Coq proof over byte-level model + source-extracted patch shape + vm_compute correspondence + independent RFC1952/BGZF parser',
     design='6/C08')
